@@ -158,8 +158,16 @@ def introspection(ctx, rule_name, element, kids, table):
     # the rule object as a user obtains it: rule.get_rule(element name) where an element maps to the rule
     r = emlkit.mrule.get_rule(element) if emlkit.mrule.node_mappings.get(element) == rule_name else emlkit.mrule.Rule(rule_name)
     base = emlkit.valid_attributes(rule_name)
-    for a, spec in table.items():
+    import copy
+    loaded = copy.deepcopy(emlkit.rules_table()[rule_name])
+    for a, spec in list(loaded[0].items()):
         wit = {"rule": rule_name, "element": element, "children": kids, "introspect": a}
+        if emlkit.rules_table()[rule_name] != loaded:
+            # the queries answer from the loaded table; they are not supposed to edit it
+            ctx.violation("introspection-changes-rule-table", f"{rule_name}: after the introspection queries the loaded rule reads "
+                                                              f"{emlkit.rules_table()[rule_name][0]!r:.200}, it was {loaded[0]!r:.200}", wit)
+            return
+        ctx.count("rule_table_unchanged_after_queries")
         # required <=> the otherwise valid node without it is rejected
         without = {k: v for k, v in base.items() if k != a}
         ok_ff, ok_co = accepted(rule_name, element, kids, without)
@@ -209,8 +217,13 @@ def introspection(ctx, rule_name, element, kids, table):
             attrs = dict(base)
             attrs[a] = UNLISTED
             ok_ff, ok_co = accepted(rule_name, element, kids, attrs)
-            again = emlkit.mrule.get_rule(element).allowed_attribute_values(a) if emlkit.mrule.node_mappings.get(element) == rule_name \
-                else emlkit.mrule.Rule(rule_name).allowed_attribute_values(a)
+            try:
+                again = emlkit.mrule.get_rule(element).allowed_attribute_values(a) if emlkit.mrule.node_mappings.get(element) == rule_name \
+                    else emlkit.mrule.Rule(rule_name).allowed_attribute_values(a)
+            except Exception as e:
+                ctx.violation(f"introspection-raises:{type(e).__name__}|asked-again", f"{rule_name}.allowed_attribute_values({a!r}) raised {e!r} "
+                                                                                     f"when asked a second time", wit)
+                continue
             ctx.evaluated(3)
             ctx.count("aliasing_probes")
             if snapshot_vals and (ok_ff or ok_co or list(again) != snapshot_vals):
